@@ -61,6 +61,18 @@ func (t TimeV) Go() time.Time {
 	}
 }
 
+// SameZone: two instants are held in zones that read and render alike. The checks run with
+// TZ=UTC, so Local and UTC are one zone for every observable purpose.
+func SameZone(a, b TimeV) bool {
+	norm := func(z string) string {
+		if z == "Local" {
+			return ""
+		}
+		return z
+	}
+	return norm(a.Zone) == norm(b.Zone) && a.Off == b.Off
+}
+
 type Entry struct {
 	K *Val `json:"k"`
 	V *Val `json:"v"`
